@@ -499,7 +499,67 @@ def unit_is_list_type():
     return run
 
 
+class WrapModels(T.ConfigModels):
+    """externals of _ListWrapper: the inherited list methods (recorded, not modelled: the unit is about *when the owner is told*),
+    the owner's callback"""
+    def callable_(self, ex, path, obj, args, kw):
+        if obj in (list.__init__, list.append, list.extend, list.insert, list.remove, list.pop, list.__setitem__):
+            self.glog_add(path, 'list_ops', (obj.__name__, tuple(args[1:])))
+            return [(path, NONE)]
+        return CommonModelsW.callable_(self, ex, path, obj, args, kw)
+
+    def opaque_call(self, ex, path, f, args, kw):
+        if f.kind == 'on_modify_cb':
+            self.glog_add(path, 'list_ops', ('<owner told>', ()))
+            return [(path, NONE)]
+        return T.ConfigModels.opaque_call(self, ex, path, f, args, kw)
+
+
+from contracts.common import CommonModels as CommonModelsW
+
+
+def unit_list_wrapper():
+    """_ListWrapper: *every* mutating call tells the owner first, then mutates - the first one and every later one (the owner
+    forgets after each save)"""
+    def run(ctx):
+        ctx.fn(MODULE, '_wrapture')
+        ctx.fn(MODULE, '_ListWrapper.__init__')
+        import txtorcon.torconfig as tc
+        ex = ctx.ex
+        path = ctx.new_path()
+        w = ex.new_inst(path, tc._ListWrapper)
+        g = ex.getattr_v(path, w, '__init__')
+        outs = ex.call(g[0][0], g[0][1], [ex.new_list(path, [VStr(z3.String('e0'))]), VOpaque('on_modify_cb', 1)], {})
+        ctx.cover('pre_satisfiable', path)
+        ops = [('append', [VStr(z3.String('x'))]), ('insert', [VInt(z3.IntVal(0)), VStr(z3.String('y'))]), ('pop', []), ('append', [VStr(z3.String('z'))])]
+        states = [p for p, r in outs if not isinstance(r, Raise)]
+        if not states:
+            ctx.oblige('constructor_completes', path, B(False))
+        for name, args in ops:
+            nxt = []
+            for p in states:
+                gg = ex.getattr_v(p, w, name)
+                for p2, r in ex.call(gg[0][0], gg[0][1], list(args), {}):
+                    if isinstance(r, Raise):
+                        ctx.oblige('no_exception', p2, B(False))
+                    else:
+                        nxt.append(p2)
+            states = nxt
+        for p in states:
+            log = [x[0] for x in ctx.models.glog(p, 'list_ops') if x[0] != '__init__']
+            want = []
+            for name, _ in ops:
+                want += ['<owner told>', name]
+            ctx.oblige('post.owner_told_before_every_mutation_first_and_later_ones', p, B(log == want),
+                       clause='list-valued options stay tracked lists so code that reads, edits and saves keeps working (every in-place edit marks the option)')
+        if not states:
+            ctx.oblige('some_normal_exit', path, B(False))
+    return run
+
+
 def make_models_for(unit_name):
+    if '_ListWrapper' in unit_name:
+        return WrapModels()
     if '_get_defaults' in unit_name:
         return DefaultsModels()
     return SetupModels() if '_do_setup' in unit_name else make_models()
@@ -513,6 +573,7 @@ def units(tier='quick'):
     out += [('C11/_find_real_name/%s' % k, unit_find_real_name(k)) for k in ('first', 'second', 'none')]
     out += [('C11/_get_defaults@%s' % '_'.join(map(str, sh)), unit_get_defaults(sh)) for sh in (((0,), (0, 1), (0, 0)) if tier == 'quick' else ((0,), (0, 1), (0, 0), (0, 1, 0), (0, 0, 0)))]
     out.append(('C11/is_list_config_type', unit_is_list_type()))
+    out.append(('C11/_ListWrapper', unit_list_wrapper()))
     for is_list in (True, False):
         for rep in ('one', 'many', 'unset'):
             if not is_list and rep == 'many':
